@@ -148,7 +148,9 @@ example (H : Hashes) (cell : Nat → Nat → Felt) :
         tableRoot H (Felt.ofNat 3) 2 3 cell⟩⟩
       [Felt.ofNat 1, Felt.ofNat 2] [cell 1 0, cell 1 1, cell 1 2, cell 2 0, cell 2 1, cell 2 2]
       (authPath H (Felt.ofNat 3) 2 (tableLeaf H (Felt.ofNat 3) 2 3 cell) [1, 2]) = .ok () := by
-  simpa using table_complete H (Felt.ofNat 3) 2 (by omega) 3 (by omega) cell [1, 2] []
+  have := table_complete H (Felt.ofNat 3) 2 (by omega) 3 (by omega) cell [1, 2] []
     (by simp) (by decide) (by decide)
+  rw [List.append_nil] at this
+  exact this
 
 end Swiftness.C05
